@@ -35,6 +35,10 @@
                              error is reachable for this request (some run / candidate stream of the
                              request reported one, or the Check model can return one); the Coq model
                              reproduces it (Props/C05.v execute_complete_refuted)
+     pipeline_streamed_error_failopen      pipeline engine, streamed call that ended with a condition error,
+                             and the object returned before the error is permitted once every
+                             exclusion `b but not s` is read as `b` (the Difference worker broadcasts
+                             base minus an INCOMPLETE subtract set when the subtract side failed)
    DIFF: the extracted Coq [evaluate], run on the recorded candidate stream with check := Sem and
      the arrival order reconstructed from the observed result, differs (as a set) from the result
      although no PROP/KNOWN explains the run.
@@ -102,6 +106,16 @@ let degenerate_inter_reachable (m : model) (t : n) (r : n) =
   List.exists (fun (t', r') ->
     match get_relation m t' r' with Some rd -> rw_degenerate rd.rd_rw | None -> false) (reachable_rels m t r)
 
+(* the model with every exclusion replaced by its base *)
+let rec rw_nodiff rw =
+  match rw with
+  | This | Computed _ | TTU _ -> rw
+  | Union l -> Union (List.map rw_nodiff l)
+  | Inter l -> Inter (List.map rw_nodiff l)
+  | Diff (b, _) -> rw_nodiff b
+let model_nodiff (m : model) : model =
+  List.map (fun td -> { td with td_rels = List.map (fun rd -> { rd with rd_rw = rw_nodiff rd.rd_rw }) td.td_rels }) m
+
 let eng_s = function 0 -> "classic" | 1 -> "weighted" | 2 -> "pipeline" | _ -> "?"
 let be_s = function 0 -> "memory" | 1 -> "sqlite" | _ -> "?"
 
@@ -164,6 +178,9 @@ let f _id vs =
               if conv3 then (fun id -> atomval subj v3 (objof id) rel) else spec
             end in
           let strict_obj e id = e = 2 && lax <> [] && spec_strict id <> spec id in
+          let spec_nodiff = lazy (
+            let (v4, conv4) = lfp (model_nodiff m) cs store subj ats in
+            if conv4 then (fun id -> atomval subj v4 (objof id) rel) else (fun _ -> F)) in
           let subj_valid =
             (match find_type m (subject_type subj) with Some _ -> true | None -> false) &&
             (match subj with SSet (o, r) -> rel_defined m o.otype r | _ -> true) in
@@ -179,10 +196,12 @@ let f _id vs =
           let where b e = Printf.sprintf "%s/%s ListObjects(t%d#r%d@%s)" (be_s b) (eng_s e) (int_of_n ot) (int_of_n rel) (subj_s subj) in
           let known flag txt = knowns := (flag ^ " " ^ txt) :: !knowns in
           (* an object whose presence (returned = true) or absence deviates from the reference *)
-          let deviation ?(l0 = false) b e returned id what =
+          let deviation ?(l0 = false) ?(failopen = false) b e returned id what =
             let txt = Printf.sprintf "%s: object %d %s (spec=%s)" (where b e) id what (b3s (spec id)) in
             if leak_obj b id then (known "rswu_userset_leak" txt; true)
             else if strict_obj e id then (known "pipeline_strict_condition_filter" txt; true)
+            else if failopen && returned && e = 2 && has_e && (Lazy.force spec_nodiff) id = T then
+              (known "pipeline_streamed_error_failopen" txt; true)
             else if l0 && not returned && e <> 2 && Lazy.force err_evidence then (known "limit0_error_swallowed" txt; true)
             else if e <> 2 then begin
               let (oset, tr) = check_of id in
@@ -257,7 +276,9 @@ let f _id vs =
                 List.iter (fun id ->
                   if not (isperm id) then begin
                     bad := true;
-                    ignore (deviation b e true id (Printf.sprintf "returned (limit %d, %s) although not permitted" limit (if mode = 1 then "streamed" else "unary")))
+                    ignore (deviation ~failopen:(mode = 1 && ec = 1) b e true id
+                              (Printf.sprintf "returned (limit %d, %s%s) although not permitted" limit
+                                 (if mode = 1 then "streamed" else "unary") (if ec = 1 then ", then a condition error" else "")))
                   end) (uniq objs);
                 if ec = 0 then begin
                   if limit > 0 && List.length objs > limit then flag_prop (w ^ ": more objects than the limit");
